@@ -49,9 +49,8 @@ def feasible(decisions):
     return not (present & absent)
 
 
-def check(ctx):
+def check_tables_not_mutated(ctx, rule):
     P = ctx.P
-    # ---- C09-a non-mutation
     n = 0
     for q, params in TABLE_FUNCS.items():
         f = P.func(q)
@@ -59,12 +58,17 @@ def check(ctx):
         n += 1
         fs = effects.analyse(f.node, [p for p in params if p in f.params])
         ctx.check(
-            not fs, "C09-a", q + ":caller's table", f.where(),
+            not fs, rule, q + ":caller's table", f.where(),
             "no subscript/attribute store, augmented assignment or mutating method call reaches the caller's table (directly or through a shallow copy's columns)",
             signature="; ".join(sorted({x.kind + " " + x.detail for x in fs}))[:200],
             findings=[f"line {x.node.lineno}: {x.kind}: {x.detail}" for x in fs],
         )
-    ctx.floor("C09-a", n, 5, "table-taking functions")
+    ctx.floor(rule, n, 5, "table-taking functions")
+
+
+def check(ctx):
+    P = ctx.P
+    check_tables_not_mutated(ctx, "C09-a")
 
     # ---- C09-b / c / d / e on the two constructors
     for cname in ("FlowProperties", "FlowPropertiesSimple"):
